@@ -10,22 +10,30 @@ malformed datagrams.  After every datagram
   * the extracted Coq model (model/Registry.v) is compared on reply bytes, notifications, the whole
     services table (with dict order) and loop liveness.
 A few real UDP / TCP loopback runs cover the socket subclasses (silent and partial TCP clients)."""
-import collections, logging, socket, struct, threading, time as _time
+import collections, logging, os, socket, struct, subprocess, sys, threading, time as _time
 from harness import common as C
 
 META = {
     "level": "proof",
-    "level_text": "Theorems over all histories of requests and all datagrams (props/C18.v): the reply to a query is exactly the set of servers registered "
-                  "under the upper-cased name, not unregistered since and refreshed within the pruning interval, without duplicates and oldest refresh first, "
-                  "for any monotone clock and any equality on port values; the notifications of every step equal the membership changes of the table; no value "
-                  "in place of (magic, command, args) and no byte string ends the loop or changes an entry the request does not name; silent TCP clients are "
-                  "invisible to the others. The statements that are false on a tree with the defects F4a/F4b/F4c are guarded by three facts regenerated from "
-                  "registry.py on every run and come with refutation theorems carrying the witnesses. Proof is the right level: the property quantifies over "
-                  "unbounded histories and arbitrary datagrams.",
-    "level_note": "Trusted: Coq kernel, pygen, extraction + driver, harness. Python's str.upper/lower, frozenset iteration order and == on port values are "
-                  "parameters of the model (theorems hold for all of them); the extracted instance uses ASCII case mapping and structural equality and is "
-                  "compared only inside that domain (the implementation-level oracle runs on every case). Blocking of recv() is OS behaviour: the model carries "
-                  "the generated flag, the loopback run demonstrates the stall with a wall-clock bound. UDP loss/reordering and broadcast are outside.",
+    "level_text": "Theorems over all histories of requests and all datagrams (props/C18.v). Full strength: the answer computed for a query is exactly the set of "
+                  "servers registered under the upper-cased name, not unregistered since and refreshed within the pruning interval, one per address, oldest "
+                  "refresh first, for any monotone clock and any equality on port values (c18_query_exact), and it is delivered whenever every registered "
+                  "address can be encoded, which a tree validating at registration guarantees (c18_query_delivered); no value in place of (magic, command, "
+                  "args), no byte string and no reply that cannot be encoded ends the loop (c18_loop_survives); a request changes only the entries it names "
+                  "(c18_no_collateral, c18_malformed_dropped). Notifications: exact against the KEYS OF THE TABLE per step (c18_notifications_exact); against "
+                  "the property's freshness-based membership only the lazy version holds and is what is proved (c18_notifications_fresh_partial: log balance "
+                  "= table membership, fresh registered entries are in the table, unregistered ones are not, equality right after a query for the name); the "
+                  "strict reading is refuted on every tree (c18_notifications_fresh_refuted, known finding). TCP is partial: silent clients are invisible and "
+                  "nobody is starved given the generated flags and at least one spare descriptor (c18_tcp_silent_client_partial), each silent client ahead costs "
+                  "one server timeout (c18_tcp_latency_partial), which with the stock constants defeats the stock client (c18_tcp_stock_client_refuted, known "
+                  "finding). Every clause that is false on a tree with a defect is guarded by one of six facts regenerated from registry.py on every run and "
+                  "has a _refuted theorem with the witness. Proof is the right level: the property quantifies over unbounded histories and arbitrary datagrams.",
+    "level_note": "Trusted: Coq kernel, pygen, extraction + driver, harness. Python's str.upper/lower, frozenset iteration order, == on port values and "
+                  "'brine.dump succeeds at this stack depth' (enc) are parameters of the model (theorems hold for all of them); the extracted instance uses "
+                  "ASCII case mapping, structural equality and an encoder that never fails, and is compared only inside that domain (ASCII names, ports without "
+                  "1 == 1.0 == True aliasing, nesting below 64) -- the implementation-level oracle runs on every case, including the deep ones. Blocking of "
+                  "recv(), descriptor exhaustion and wall-clock latency are OS behaviour: the model carries flags, a counter and a per-silent-client cost; the "
+                  "loopback runs demonstrate them. UDP loss/reordering and broadcast are outside.",
     "technique": "Coq refinement proof (concrete insertion-ordered tables vs. a history-defined specification) + regenerated control skeletons + differential "
                  "correspondence of the extracted model with the real _work loop",
     "gen": ["registry"],
@@ -36,7 +44,11 @@ META = {
         "the clock does not go backwards between datagrams and does not advance while one datagram is processed",
         "CPython: str.lower() maps no non-ASCII character to ASCII letters other than U+212A -> 'k' (checked on every run), so only ASCII spellings reach a cmd_* method",
         "every value brine.load returns is hashable (Python >= 3.12: slices too; checked on every run)",
-        "a TCP client that stays silent stays silent for ever (the bound observed on loopback is the server's TIMEOUT)",
+        "brine.dump(((host, port),)) evaluated inside cmd_register fails whenever the later brine.dump of a reply containing (host, port) would "
+        "(same nesting, one frame deeper); the only way a loaded value fails to encode is the recursion limit",
+        "a TCP client that stays silent stays silent for ever; every accepted socket costs one descriptor until it is closed",
+        "loopback verdicts: a positive expectation waits up to 30 s and returns as soon as the answer arrives; a server is given up on earlier only when "
+        "/proc shows it has no descriptor left",
     ],
 }
 
@@ -86,8 +98,15 @@ def note_sx(n):
     return [1 if n[0] == "add" else 0, cps(n[1]), addr_sx(n[2])]
 
 
+def rkey(o):
+    try:
+        return repr(o)
+    except RecursionError:
+        return "<nested too deeply to print>"
+
+
 def short(o, n=200):
-    s = repr(o)
+    s = rkey(o)
     return s if len(s) <= n else s[:n] + "..."
 
 
@@ -241,6 +260,7 @@ def run_history(ctx, pruning, events, model_out=None, label="history"):
         spec = Spec(pruning)
         comparable = model_out is not None
         diverged = False        # the table already differs from the reference: report once, then stop comparing it
+        fresh_prev = set()      # the property's membership (registered, not unregistered, fresh) after the previous datagram
         for i, (now, host, sport, data) in enumerate(events):
             clock.now = now
             what = spec_classify(data)
@@ -256,6 +276,12 @@ def run_history(ctx, pruning, events, model_out=None, label="history"):
                 ctx.violation("loop-dies:%s:%s" % (C.exc_enum(exc), kind), case(), observed="%s: %s" % (type(exc).__name__, exc),
                               expected="the datagram is dropped and the loop continues",
                               what="one datagram (%s) raises out of RegistryServer._work and ends the registry" % kind)
+            # ---- a register may be refused (no acknowledgement, nothing changed) only when its address could not be
+            #      sent back in a reply; whatever is acknowledged counts as registered
+            if exc is None and kind == "register" and not sent and not notes and before == after \
+                    and not clearly_encodable(((host, what[2]),)):
+                ctx.count("register-refused:unanswerable-address")
+                what, kind = ("refused",), "refused-register"
             # ---- replies
             if exc is None and kind in COMMANDS and not diverged:
                 if len(sent) != 1 or sent[0][1] != (host, sport):
@@ -284,16 +310,16 @@ def run_history(ctx, pruning, events, model_out=None, label="history"):
             if got != want:
                 extra, missing = got - want, want - got
                 if extra:
-                    n = sorted(extra, key=repr)[0]
+                    n = sorted(extra, key=rkey)[0]
                     sig = "notification:%s-without-change" % ("removed" if n[0] == "rem" else "added")
                     if want[n] >= 1:
                         sig = "notification:duplicate-" + ("removed" if n[0] == "rem" else "added")
-                    ctx.violation(sig, case(), observed=short(sorted(got.items(), key=repr)), expected=short(sorted(want.items(), key=repr)),
+                    ctx.violation(sig, case(), observed=short(sorted(got.items(), key=rkey)), expected=short(sorted(want.items(), key=rkey)),
                                   what="on_service_%s fired for %r although the membership of that name did not change" % ("removed" if n[0] == "rem" else "added", n[1:]))
                 if missing:
-                    n = sorted(missing, key=repr)[0]
-                    ctx.violation("notification:missing-" + ("removed" if n[0] == "rem" else "added"), case(), observed=short(sorted(got.items(), key=repr)),
-                                  expected=short(sorted(want.items(), key=repr)), what="a membership change was not notified")
+                    n = sorted(missing, key=rkey)[0]
+                    ctx.violation("notification:missing-" + ("removed" if n[0] == "rem" else "added"), case(), observed=short(sorted(got.items(), key=rkey)),
+                                  expected=short(sorted(want.items(), key=rkey)), what="a membership change was not notified")
             # ---- the table is what the requests so far say (modulo lazy pruning of stale entries)
             spec.apply(what, host, now)
             for n in (set(srv.services) | set(spec.reg)) if not diverged else ():
@@ -311,8 +337,31 @@ def run_history(ctx, pruning, events, model_out=None, label="history"):
                         diverged = True
                         ctx.violation("collateral:lost-registration:" + kind, case(), observed="absent", expected=short((n, a, want_tb[a])),
                                       what="after a %s a fresh registration disappeared without an unregister from its owner" % kind)
+            # ---- the same against the property's own membership: registered, not unregistered, refreshed within the interval
+            fresh_now = {(n, a) for n, tb in spec.reg.items() for a, t in tb.items() if t >= now - pruning}
+            if exc is None and not diverged and got == want:
+                fwant = collections.Counter([("add",) + x for x in fresh_now - fresh_prev] + [("rem",) + x for x in fresh_prev - fresh_now])
+                if got != fwant:
+                    extra, missing = got - fwant, fwant - got
+                    obs, expd = short(sorted(got.items(), key=rkey)), short(sorted(fwant.items(), key=rkey))
+                    for n in missing:
+                        if n[0] == "rem":
+                            ctx.violation("notification:expiry-not-notified", case(), observed=obs, expected=expd,
+                                          what="a registration left the fresh set (clock passed its interval, or it was unregistered after expiring) and no "
+                                               "on_service_removed fired at that point; the code notices expiry only at the next query for that name")
+                        else:
+                            ctx.violation("notification:fresh-again-without-added", case(), observed=obs, expected=expd,
+                                          what="an expired but not yet pruned registration registered again (back in the fresh set) and no on_service_added fired")
+                    for n in extra:
+                        if n[0] == "rem":
+                            ctx.violation("notification:removed-later-than-expiry", case(), observed=obs, expected=expd,
+                                          what="on_service_removed fired for a registration that had left the fresh set at an earlier datagram (lazy pruning at query / unregister)")
+                        else:
+                            ctx.violation("notification:added-without-fresh-change", case(), observed=obs, expected=expd,
+                                          what="on_service_added fired although the fresh registered set did not gain that entry")
+            fresh_prev = fresh_now
             if kind not in COMMANDS and exc is None and before != after:
-                ctx.violation("collateral:malformed-changed-table:" + kind, case(), observed=short(sorted(after ^ before, key=repr)), expected="no change",
+                ctx.violation("collateral:malformed-changed-table:" + kind, case(), observed=short(sorted(after ^ before, key=rkey)), expected="no change",
                               what="a malformed datagram changed the table")
             # ---- correspondence
             if comparable:
@@ -371,6 +420,86 @@ def spell(r, cmd):
 
 def dg(*triple):
     return brine.dump(tuple(triple))
+
+
+def _under(frames, f):
+    return f() if frames <= 0 else _under(frames - 1, f)
+
+
+def clearly_encodable(v):
+    """brine.dump(v) succeeds even 80 frames deeper than here, i.e. certainly where the registry encodes replies"""
+    try:
+        _under(80, lambda: brine.dump(v))
+        return True
+    except RecursionError:
+        return False
+
+
+TUP1 = brine.dump((0,))[:1]
+
+
+def deep_bytes(n):
+    """encoding of 0 wrapped in n nested 1-tuples, built without recursion"""
+    return TUP1 * n + brine.dump(0)
+
+
+def dg_deep(n, where, cmd="REGISTER", name="deep"):
+    """a request with the deep value in one position"""
+    if where == "port":
+        head = dg("RPYC", cmd, ((name,), 0))
+    elif where == "unregister":
+        head = dg("RPYC", "UNREGISTER", (0,))
+    elif where == "args":
+        head = dg("RPYC", cmd, 0)
+    elif where == "command":
+        return dg("RPYC", 0, ())[:-2] + deep_bytes(n) + brine.dump(())
+    else:
+        return dg(0, cmd, ())[:1] + deep_bytes(n) + dg(0, cmd, ())[2:]
+    z = brine.dump(0)
+    assert head.endswith(z)
+    return head[:-len(z)] + deep_bytes(n)
+
+
+def deepest_accepted():
+    """largest nesting of a port the real _work loop still loads and acknowledges from this stack depth"""
+    clock = Clock()
+    with patched_clock(clock):
+        lo, hi = 10, 1200
+        while lo < hi:
+            mid = (lo + hi + 1) // 2
+            srv = Drv(240)
+            try:
+                srv.feed(dg_deep(mid, "port"), ("10.9.9.9", 1))
+                ok = bool(srv.sent)
+            except RecursionError:
+                ok = False
+            lo, hi = (mid, hi) if ok else (lo, mid - 1)
+        return lo
+
+
+def deep_histories(nmax):
+    """registrations whose port is nested up to the deepest value the decoder accepts, then queries for that name and
+    others, unregister, re-query; plus deep values in the other positions"""
+    out = []
+    for n in sorted({nmax, nmax - 1, nmax - 2, nmax - 5, nmax - 12, nmax - 40, nmax // 2, 60, 12}):
+        if n < 1:
+            continue
+        ev = [(1000, "10.0.0.1", 5000, dg("RPYC", "REGISTER", (("foo",), 1234))),
+              (1001, "10.0.0.2", 5001, dg_deep(n, "port")),
+              (1002, "10.0.0.3", 5002, dg("RPYC", "QUERY", ("deep",))),
+              (1003, "10.0.0.3", 5003, dg("RPYC", "QUERY", ("foo",))),
+              (1004, "10.0.0.2", 5004, dg_deep(n, "port", name="foo")),
+              (1005, "10.0.0.3", 5005, dg("RPYC", "QUERY", ("foo",))),
+              (1006, "10.0.0.2", 5006, dg_deep(n, "unregister")),
+              (1007, "10.0.0.3", 5007, dg("RPYC", "QUERY", ("foo",))),
+              (1008, "10.0.0.3", 5008, dg("RPYC", "QUERY", ("deep",)))]
+        out.append((240, ev))
+    for where in ("args", "command", "magic"):
+        for n in (nmax, nmax - 3, 100):
+            out.append((240, [(1000, "10.0.0.1", 5000, dg("RPYC", "REGISTER", (("foo",), 1234))),
+                              (1001, "10.0.0.2", 5001, dg_deep(n, where, cmd="QUERY")),
+                              (1002, "10.0.0.3", 5002, dg("RPYC", "QUERY", ("foo",)))]))
+    return out
 
 
 ODD = [0.0]      # probability of names / ports outside the extracted instance's domain (set per history)
@@ -491,10 +620,14 @@ def _typed_items(mod):
     return _FACTS[mod]
 
 
+FACTS = ("cmd_lookup_guarded", "remove_notifies_only_present", "tcp_accepted_timeout",
+         "reply_dump_guarded", "register_validates_reply", "tcp_recv_closes_unanswered")
+
+
 def gen_facts():
-    """the three facts of the tree under test as the translator reads them (pinned values if unreadable)"""
+    """the six facts of the tree under test as the translator reads them (defect values if unreadable)"""
     t = _typed_items("registry")
-    return [int(t.get(k) == "true") for k in ("cmd_lookup_guarded", "remove_notifies_only_present", "tcp_accepted_timeout")]
+    return [int(t.get(k) == "true") for k in FACTS]
 
 
 def sp_flag():
@@ -534,6 +667,9 @@ def check_python_facts(ctx):
 
 # ---------------------------------------------------------------- real sockets
 
+LIMIT = 30.0     # wall-clock limit of every positive expectation; all of them return as soon as the answer is there
+
+
 class NoteMixin:
     def on_service_added(self, name, addrinfo):
         self.notes.append(("add", name, addrinfo))
@@ -564,7 +700,7 @@ def _start(srv):
     th = threading.Thread(target=body, daemon=True)
     th.start()
     t0 = _time.time()
-    while not srv.active and _time.time() - t0 < 20:
+    while not srv.active and _time.time() - t0 < 60:
         _time.sleep(0.005)
     return th
 
@@ -574,7 +710,7 @@ def _stop(srv, th):
         srv.close()
     except ValueError:
         pass
-    th.join(15)
+    th.join(40)
     if th.is_alive():
         return False
     return True
@@ -587,7 +723,7 @@ def udp_run(ctx, datagrams):
     port = srv.port
     case = {"kind": "udp", "datagrams": [d.hex() for d in datagrams]}
     try:
-        cl = R.UDPRegistryClient(ip="127.0.0.1", port=port, timeout=8.0, logger=_quiet)
+        cl = R.UDPRegistryClient(ip="127.0.0.1", port=port, timeout=LIMIT, logger=_quiet)
         ok = cl.register(("foo",), 1234, interface="127.0.0.1")
         s = socket.socket(socket.AF_INET, socket.SOCK_DGRAM)
         try:
@@ -601,7 +737,7 @@ def udp_run(ctx, datagrams):
         for d in datagrams:
             spec.apply(spec_classify(d), "127.0.0.1", 0)
         want = set(spec.fresh("FOO", 0))
-        ans = R.UDPRegistryClient(ip="127.0.0.1", port=port, timeout=8.0, logger=_quiet).discover("FOO") if th.is_alive() else None
+        ans = R.UDPRegistryClient(ip="127.0.0.1", port=port, timeout=LIMIT, logger=_quiet).discover("FOO") if th.is_alive() else None
         good = type(ans) is tuple and set(ans) == want and len(ans) == len(want)
         if not good:
             _time.sleep(0.2)        # let a dying thread finish dying before deciding which failure this is
@@ -616,7 +752,7 @@ def udp_run(ctx, datagrams):
                           observed="server thread ended: %r" % (srv.crash,), expected="server keeps answering",
                           what="a datagram (%s) ends the UDP registry's main loop (thread dead, socket closed)" % kind)
         elif not ok or not good:
-            ctx.violation("udp-registry-stops-answering", case, observed=short((ok, ans)), expected=short((True, sorted(want, key=repr))),
+            ctx.violation("udp-registry-stops-answering", case, observed=short((ok, ans)), expected=short((True, sorted(want, key=rkey))),
                           what="after malformed datagrams the UDP registry no longer answers a query correctly")
     finally:
         if not _stop(srv, th):
@@ -631,11 +767,11 @@ def tcp_run(ctx, model, script):
     port = srv.port
     held, answers = [], []
     case = {"kind": "tcp", "script": script}
-    bound = 8.0          # generous: a passing run returns as soon as the answer arrives; a loaded machine must not look like starvation
+    bound = LIMIT        # a passing run returns as soon as the answer arrives; a loaded machine must not look like starvation
     try:
         for step in script:
             if step in ("silent", "partial"):
-                s = socket.create_connection(("127.0.0.1", port), timeout=2)
+                s = socket.create_connection(("127.0.0.1", port), timeout=LIMIT)
                 if step == "partial":
                     s.send(dg("RPYC", "QUERY", ("foo",))[:3])
                 held.append(s)
@@ -689,7 +825,7 @@ def tcp_run(ctx, model, script):
                 d = {"silent": 0, "partial": dg("RPYC", "QUERY", ("foo",))[:3], "register": dg("RPYC", "REGISTER", (("foo",), 1234)),
                      "query": dg("RPYC", "QUERY", ("foo",))}[st]
                 cl.append([1000 + i, "127.0.0.1", d])
-            mo = model.batch([["tcp", facts, [240, [sp_flag(), MAXD]], cl]])[0]
+            mo = model.batch([["tcp", facts, [240, [sp_flag(), MAXD], 1000], cl]])[0]
             ctx.model_traces += 1
             for i, (st, a) in enumerate(zip(script, answers)):
                 if st in ("register", "query"):
@@ -707,6 +843,129 @@ def tcp_run(ctx, model, script):
             ctx.tie_broken("harness:tcp-server-did-not-stop", "")
 
 
+_LEAK_SERVER = r"""
+import os, resource, sys, logging
+logging.disable(logging.CRITICAL)
+from rpyc.utils.registry import TCPRegistryServer
+class S(TCPRegistryServer):
+    TIMEOUT = 0.25
+srv = S(host="127.0.0.1", port=0, pruning_timeout=240)
+spare = int(sys.argv[1])
+used = len(os.listdir("/proc/self/fd")) - 1
+resource.setrlimit(resource.RLIMIT_NOFILE, (used + spare, resource.getrlimit(resource.RLIMIT_NOFILE)[1]))
+print(srv.port, used + spare, flush=True)
+srv.start()
+"""
+
+
+def _tcp_request(port, data, limit):
+    """one TCP request; returns the reply bytes, b'' when nothing came within the limit"""
+    s = socket.socket(socket.AF_INET, socket.SOCK_STREAM)
+    s.settimeout(limit)
+    try:
+        s.connect(("127.0.0.1", port))
+        s.send(data)
+        try:
+            return s.recv(1500)
+        except (socket.timeout, OSError):
+            return b""
+    except (socket.timeout, OSError):
+        return b""
+    finally:
+        s.close()
+
+
+def tcp_leak_run(ctx, model, spare, extra, bad=None):
+    """a TCP registry in a process that can hold `spare` more descriptors: register, spare+extra requests that get no
+    reply (their clients close at once), then a query that must still be answered"""
+    bad = bad if bad is not None else dg("RPYC", "nosuch", ())
+    env = dict(os.environ, PYTHONPATH=C.REPO)
+    proc = subprocess.Popen([sys.executable, "-c", _LEAK_SERVER, str(spare)], stdout=subprocess.PIPE, env=env)
+    case = {"kind": "tcp-leak", "spare": spare, "extra": extra, "bad": bad.hex()}
+    try:
+        port, limit = map(int, proc.stdout.readline().split())
+        reg = _tcp_request(port, dg("RPYC", "REGISTER", (("foo",), 1234)), LIMIT)
+        n = spare + extra
+        for _ in range(n):
+            try:
+                c = socket.create_connection(("127.0.0.1", port), timeout=LIMIT)
+                c.send(bad)
+                c.close()
+            except OSError:
+                break               # the listen backlog is full: the server no longer accepts
+            _time.sleep(0.01)
+        _time.sleep(0.4)
+        try:
+            fds = len(os.listdir("/proc/%d/fd" % proc.pid))
+        except OSError:
+            fds = -1
+        exhausted = fds >= limit
+        # the positive expectation has the long limit; only a server that is provably out of descriptors is given up on early
+        ans = _tcp_request(port, dg("RPYC", "QUERY", ("foo",)), 3.0 if exhausted else LIMIT)
+        want = brine.dump((("127.0.0.1", 1234),))
+        ctx.case(("tcp-leak", spare, extra, bad), nontrivial=True, sample={"tcp_leak": n, "server_fds": fds, "fd_limit": limit, "answered": bool(ans)})
+        ctx.count("socket:tcp-leak-run")
+        if proc.poll() is not None:
+            ctx.violation("tcp-registry-process-ended", case, observed="exit code %r" % proc.returncode, expected="server keeps running", what="the TCP registry process ended")
+        elif reg != brine.dump("OK"):
+            ctx.tie_broken("harness:tcp-leak-register", "register got %r" % reg)
+        elif ans != want:
+            ctx.violation("tcp-unanswered-requests-leak-sockets", case,
+                          observed="after %d unanswered requests (all clients closed) the server holds %d of %d descriptors; query answer %r" % (n, fds, limit, ans.hex()),
+                          expected="the query is answered: " + want.hex(),
+                          what="every TCP request that gets no reply leaves its accepted socket open in _connected_sockets; once the descriptors are used up accept() fails for good and nobody is answered")
+        if model:
+            cl = [[1000, "127.0.0.1", dg("RPYC", "REGISTER", (("foo",), 1234))]] + [[1001, "127.0.0.1", bad]] * n + [[1002, "127.0.0.1", dg("RPYC", "QUERY", ("foo",))]]
+            mo = model.batch([["tcp", gen_facts(), [240, [sp_flag(), MAXD], spare], cl]])[0]
+            ctx.model_traces += 1
+            m = mo[-1]
+            mans = m[1][0][1] if m[0] == b"reached" and m[1] else b""
+            if mans != ans:
+                ctx.tie_broken("correspondence:tcp-leak", "spare %d extra %d: model %r impl %r (fds %d/%d)" % (spare, extra, m, ans, fds, limit))
+    finally:
+        proc.kill()
+        proc.wait(30)
+        proc.stdout.close()
+
+
+class StockTCPSrv(NoteMixin, R.TCPRegistryServer):
+    notes = None            # stock TIMEOUT
+
+
+def tcp_stock_run(ctx):
+    """stock constants on both sides: server TIMEOUT as shipped, TCPRegistryClient with its default timeout; one silent client"""
+    srv = StockTCPSrv(host="127.0.0.1", port=0, pruning_timeout=240, logger=_quiet)
+    th = _start(srv)
+    held = None
+    case = {"kind": "tcp-stock"}
+    try:
+        cl = R.TCPRegistryClient("127.0.0.1", port=srv.port, logger=_quiet)
+        ok = cl.register(("foo",), 1234)
+        first = cl.discover("foo")
+        held = socket.create_connection(("127.0.0.1", srv.port), timeout=LIMIT)
+        _time.sleep(0.05)
+        t0 = _time.time()
+        ans = cl.discover("foo")
+        dt = _time.time() - t0
+        ctx.case(("tcp-stock",), nontrivial=True, sample={"tcp_stock": True, "answer": short(ans), "after_s": round(dt, 1)})
+        ctx.count("socket:tcp-stock-run")
+        want = (("127.0.0.1", 1234),)
+        if not ok or first != want:
+            ctx.violation("tcp-stock-client-unanswered", case, observed=short((ok, first)), expected=short((True, want)), what="stock TCP client and server do not work together")
+        elif ans != want:
+            ctx.violation("tcp-silent-client-defeats-stock-client", case,
+                          observed="discover('foo') returned %r after %.1fs with one silent client connected (server TIMEOUT %.1fs, client timeout %.1fs)"
+                                   % (ans, dt, srv.TIMEOUT, cl.timeout),
+                          expected=short(want),
+                          what="the registry waits TCPRegistryServer.TIMEOUT for every silent client before it turns to the next one; "
+                               "the stock client gives up earlier, so one silent connection makes it report no servers")
+    finally:
+        if held is not None:
+            held.close()
+        if not _stop(srv, th):
+            ctx.tie_broken("harness:tcp-server-did-not-stop", "")
+
+
 # ---------------------------------------------------------------- entry points
 
 def run(ctx):
@@ -720,10 +979,12 @@ def run(ctx):
         "pruning, pruning+1, 2*pruning+3; pruning in {0,1,5,60,240}), 40%% register (1-3 aliases in mixed case, ports from a small pool so that "
         "refresh/unregister hit), 15%% unregister, 45%% query, each replaced with probability 0/0.1/0.2/0.4 by a malformed datagram (random bytes, "
         "truncation/corruption of a valid one, any of %d value shapes in place of the whole triple / magic / command / args, wrong argument counts); "
-        "plus a systematic sweep of every shape in every position of every command against a populated table, and real UDP/TCP loopback runs "
-        "(numeric command, silent and partial TCP clients). non-trivial = at least 3 datagrams of which at least 2 are well-formed commands; "
+        "plus a systematic sweep of every shape in every position of every command against a populated table; registrations whose port is nested "
+        "up to the deepest value the decoder still accepts from inside _work (found by bisection on every run) followed by queries, and deep values "
+        "in the other positions; real UDP/TCP loopback runs (numeric command, silent and partial TCP clients; a TCP server process with a lowered "
+        "descriptor limit receiving more unanswered requests than it has descriptors; stock server and client constants with one silent client). non-trivial = at least 3 datagrams of which at least 2 are well-formed commands; "
         "distinct by the full datagram sequence" % len(SHAPES))
-    ctx.coverage_extra["facts"] = dict(zip(("cmd_lookup_guarded", "remove_notifies_only_present", "tcp_accepted_timeout"), gen_facts()))
+    ctx.coverage_extra["facts"] = dict(zip(FACTS, gen_facts()))
     check_python_facts(ctx)
     # design witnesses first
     w = [(240, [(1000, "10.0.0.1", 5000, dg("RPYC", "REGISTER", (("foo",), 1234))), (1001, "10.0.0.1", 5001, dg("RPYC", "REGISTER", (("bar",), 999))),
@@ -734,6 +995,9 @@ def run(ctx):
               (1003, "a", 1, dg("RPYC", "REGISTER", (("FOO",), 1))), (1005, "c", 2, dg("RPYC", "QUERY", ("foo",))), (1006, "c", 2, dg("RPYC", "QUERY", ("foo",))),
               (1020, "c", 2, dg("RPYC", "QUERY", ("foo",))), (1021, "b", 1, dg("RPYC", "REGISTER", (("foo",), 1))), (1021, "c", 2, dg("RPYC", "QUERY", ("foo",)))])]
     check_histories(ctx, model, w, "witness")
+    nmax = deepest_accepted()
+    ctx.coverage_extra["deepest_port_nesting_acknowledged"] = nmax
+    check_histories(ctx, model, deep_histories(nmax), "deep")
     check_histories(ctx, model, systematic(), "systematic")
     n, nmax = (1300, 25) if ctx.quick else (40000, 60)
     check_histories(ctx, model, [gen_history(r, nmax) for _ in range(n)], "random")
@@ -750,6 +1014,12 @@ def run(ctx):
         udp_run(ctx, ds)
     for sc in tcp_scripts:
         tcp_run(ctx, model, sc)
+    tcp_leak_run(ctx, model, 12, 8)
+    if not ctx.quick:
+        tcp_leak_run(ctx, model, 30, 5, dg("nope", "QUERY", ("foo",)))
+        tcp_leak_run(ctx, model, 20, 5, b"")
+        tcp_leak_run(ctx, model, 20, 5, dg("RPYC", "QUERY", (5,)))
+    tcp_stock_run(ctx)
 
 
 def replay(ctx, rep):
@@ -763,3 +1033,7 @@ def replay(ctx, rep):
         udp_run(ctx, [bytes.fromhex(h) for h in case["datagrams"]])
     elif case.get("kind") == "tcp":
         tcp_run(ctx, model, case["script"])
+    elif case.get("kind") == "tcp-leak":
+        tcp_leak_run(ctx, model, case["spare"], case["extra"], bytes.fromhex(case["bad"]))
+    elif case.get("kind") == "tcp-stock":
+        tcp_stock_run(ctx)
